@@ -56,10 +56,62 @@ def gen_case(rng):
             extra = "args=%s" % ",".join(a)
         ops.append("build e=%d res=r batch=%d dir=out %s" % (eid, rng.choice([1, 1, 1, 2, 3, 4]), extra))
         if rng.random() < 0.3:
-            ops.append("exit e=%d" % eid)
+            ops.append("exit e=%d%s" % (eid, " err=1" if rng.random() < 0.25 else ""))   # a traced error must not change admission/accounting
+    return ops
+
+
+def gen_reload_case(rng):
+    """two (or three) rules of one resource that can take over each other's statistics (same strategy, capacity, duration, metric),
+    reloaded once or twice with every rule changed; the rules then see the same strings, or one value each under capacity 1
+    (seed C06-d: controllers sharing one bucket table after a reload)"""
+    ops = ["clock"]
+    d = rng.choice([1, 2, 3])
+    cap = rng.choice([0, 0, 1, 2])
+    nr = rng.choice([2, 2, 3])
+    kinds = [("h", 0, ""), ("g", 0, "k"), ("f", 1, "")][:nr]
+    thr = [rng.randint(1, 4) for _ in kinds]
+    burst = [rng.randint(0, 1) for _ in kinds]
+    gen_no = [0]
+
+    def load():
+        gen_no[0] += 1
+        rules = [hs_rule("%s%d" % (rid, gen_no[0]), "q", "r", idx, key, thr[j], 0, burst[j], d, cap, []) for j, (rid, idx, key) in enumerate(kinds)]
+        if rng.random() < 0.5:
+            rules.reverse()
+        ops.append("hs.load res=r rules=" + ",".join(rules))
+
+    load()
+    eid = 0
+    reloads = sorted(rng.sample(range(2, 14), rng.choice([1, 1, 2])))
+    same_string = rng.random() < 0.5
+    for k in range(rng.randint(12, 30)):
+        if k in reloads:
+            for j in range(len(kinds)):
+                if rng.random() < 0.85:
+                    thr[j] += rng.choice([1, 2])
+                else:
+                    burst[j] += 1
+            load()
+        g = rng.choice(["0", "0", "0", "1", "d-1", "d+1", "rand"])
+        dt = {"0": 0, "1": 1, "d-1": d * 1000 - 1, "d+1": d * 1000 + 1, "rand": rng.randint(0, d * 1000)}[g]
+        if dt:
+            ops.append("adv ms=%d" % dt)
+        eid += 1
+        if same_string:
+            v = rng.choice(["a", "a", "b"])
+            a0, a1, kv = v, v, v
+        else:
+            a0, a1, kv = "a", "c", "b"            # one distinct value per rule
+        which = rng.choice(["all", "all", "pos", "key"])
+        extra = "args=%s,%s" % (a0, a1) if which in ("all", "pos") else "args="
+        if which in ("all", "key"):
+            extra += " atts=k:%s" % kv
+        ops.append("build e=%d res=r batch=%d dir=out %s" % (eid, rng.choice([1, 1, 1, 2]), extra))
+        if rng.random() < 0.3:
+            ops.append("exit e=%d%s" % (eid, " err=1" if rng.random() < 0.25 else ""))   # a traced error must not change admission/accounting
     return ops
 
 
 def gen(rng, tier):
     n = 500 if tier == "quick" else 25000
-    return [gen_case(rng) for _ in range(n)]
+    return [gen_case(rng) if i % 6 else gen_reload_case(rng) for i in range(n)]
